@@ -148,7 +148,21 @@ def _gen_solid(rng):
     over_ = _cfg_variants(rng, fmt)
     if fmt.startswith("cff"):
         over_["output_file"] = "out.otf"
-    return {"glyphs": e2e.gen_glyphset(rng, gradients=False, groups=False), "overrides": over_}
+    glyphs = e2e.gen_glyphset(rng, gradients=False, groups=False)
+    for g in glyphs:
+        for sh in e2e.all_shapes(g):
+            if getattr(sh.fill, "current", False):
+                # known finding F14 (translucent currentColor in COLRv0): that class is
+                # exercised by the recorded witness below, not drawn at random
+                sh.opacity = 1.0
+    return {"glyphs": glyphs, "overrides": over_}
+
+
+def _f14_witness():
+    fill = e2e.Solid((0, 0, 0), 1.0)
+    fill.current = True
+    g = e2e.GlyphSpec((0, 0, 100, 100), [e2e.Shape([(20, 20), (80, 20), (80, 80), (20, 80)], fill, 0.5)], (0xE000,))
+    return {"glyphs": [g], "overrides": dict(color_format="glyf_colr_0", output_file="out.ttf")}
 
 
 @contract("nanoemoji.write_font._generate_color_font", props=["C03", "C15"])
@@ -158,6 +172,7 @@ class e2e_colrv0_picture:
     native_call = _build
     n_quick = 30
     n_thorough = 400
+    known_witnesses = {"F14": _f14_witness}
     ensures = {
         "same-picture-at-sample-points": lambda glyphs, result: _picture_mismatches(glyphs, result, _colr_eval) == [],
         # one layer per source shape, in z-order
@@ -276,9 +291,13 @@ def _add_default_paint_donor(rng, glyphs):
     g.items.insert(0, e2e.Shape(pts, e2e.Solid((0, 0, 0), 1.0), 1.0))
     fill = rng.choice([e2e.Solid(e2e._rgb(rng), 1.0), e2e.Solid((0, 0, 0), 1.0)])
     op = 1.0 if fill.rgb != (0, 0, 0) and rng.random() < 0.5 else 0.5
+    # the copies live in the same glyph (the donor stays in place) or in another glyph of the
+    # same viewBox (the donor moves to <defs> and is itself drawn through a bare <use>)
+    others = [o for o in glyphs if o is not g and o.viewbox == g.viewbox]
+    host = rng.choice(others) if others and rng.random() < 0.5 else g
     for k in range(rng.randint(1, 2)):
         dx, dy = (k + 1) * (ww + 3), (k + 1) * 2
-        g.items.append(e2e.Shape([(px + dx, py + dy) for px, py in pts], e2e.Solid(fill.rgb, 1.0), op))
+        host.items.append(e2e.Shape([(px + dx, py + dy) for px, py in pts], e2e.Solid(fill.rgb, 1.0), op))
 
 
 def _add_same_gradient_in_other_documents(rng, glyphs):
